@@ -40,7 +40,7 @@ def stretch_ok(N, theta_s, theta_b, stagger, Vstretching, result) -> bool:
     _st["n"]["s_stretch"] += 1
     Cs = np.asarray(result)
     if stagger == "w":
-        if len(Cs) != N + 1 or abs(Cs[0] + 1.0) > 1e-12 or abs(Cs[-1]) > 1e-12:
+        if len(Cs) != N + 1 or not (abs(Cs[0] + 1.0) <= 1e-12) or not (abs(Cs[-1]) <= 1e-12):
             return False
     elif len(Cs) != N or np.any(Cs <= -1.0) or np.any(Cs >= 0.0):
         return False
@@ -88,7 +88,7 @@ def z2s_ok(z_rho, X, Y, Z, result) -> bool:
                 return False
             val += (1 - a) * zr[k]
         want = min(max(-Z[n], zr[0]), zr[-1])
-        if abs(val - want) > 1e-9 * max(1.0, abs(zr[0])):
+        if not (abs(val - want) <= 1e-9 * max(1.0, abs(zr[0]))):
             return False
     return True
 
@@ -271,7 +271,7 @@ def run_case(case: dict[str, Any], wd: Path) -> dict[str, Any]:
                 V.append(C.viol(f"{label}: w-levels do not interleave with rho-levels", params=p))
             # the Grid's levels must be those of the file's own bathymetry
             zr_ref = w["G"]["zr"][:, g.J, g.I]
-            if label == "grid_from_file" and np.max(np.abs(g.z_r - zr_ref)) > 1e-9 * hmax:
+            if label == "grid_from_file" and not (np.max(np.abs(g.z_r - zr_ref)) <= 1e-9 * hmax):
                 V.append(C.viol(f"{label}: z_r differs from the levels implied by the file (max {np.max(np.abs(g.z_r - zr_ref))})", params=p))
             if label == "grid_from_vinfo_differing_from_the_file":
                 bump("vinfo_with_hc_zero_on_a_file_with_hc" if vinfo2["hc"] == 0.0 and hc > 0 else "vinfo_with_another_hc_than_the_file")
@@ -280,7 +280,7 @@ def run_case(case: dict[str, Any], wd: Path) -> dict[str, Any]:
                                     f"the levels of Vinfo's set-up by up to {np.max(np.abs(g.z_r - zr2[:, g.J, g.I])):.4g} m (Grid.hc = {getattr(g, 'hc', None)})", params=p))
             elif label.startswith("grid_from_vinfo"):
                 # Vinfo repeats the file's own vertical set-up here, so the levels must be the file's (to rounding of the two stretching implementations)
-                if p["Vstretching"] in (1, 4) and np.max(np.abs(g.z_r - zr_ref)) > 1e-6 * hmax:
+                if p["Vstretching"] in (1, 4) and not (np.max(np.abs(g.z_r - zr_ref)) <= 1e-6 * hmax):
                     V.append(C.viol(f"{label}: z_r of a Grid built from Vinfo differs from the levels of the same vertical set-up (max {np.max(np.abs(g.z_r - zr_ref)):.4g} m)", params=p))
                 if vinfo != vinfo_before:
                     V.append(C.viol(f"{label}: building a Grid changed the caller's Vinfo dictionary: {vinfo} (was {vinfo_before})", params=p))
